@@ -128,6 +128,31 @@ class StopExecution(Exception):
     def __init__(self, payload=None): self.payload = payload
 
 
+def unknown_of_type(ctx, ty, name):
+    """An unconstrained value of a Rust type given as text (for loop-carried locals of a slice): scalars, Option, tuples, fixed arrays, DVec3;
+    anything else is a Havoc value."""
+    ty = ty.replace(" ", "")
+    if ty in ("f64", "f32"): return ctx.fresh("any_" + name, "Real", "f64")
+    if ty in ("usize", "u64", "u32", "i64", "i32", "isize"): return ctx.fresh("any_" + name, "Int", ty)
+    if ty == "bool": return ctx.fresh("any_" + name, "Bool")
+    if ty == "DVec3": return Vec([ctx.fresh("any_%s_%s" % (name, c), "Real", "f64") for c in "xyz"])
+    if ty.startswith("Option<") and ty.endswith(">"):
+        return Opt(ctx.fresh("any_%s_some" % name, "Bool"), unknown_of_type(ctx, ty[7:-1], name + "_val"))
+    if ty.startswith("[") and ty.endswith("]") and ";" in ty:
+        inner, n_ = ty[1:-1].rsplit(";", 1)
+        if n_.isdigit(): return Arr([unknown_of_type(ctx, inner, "%s_%d" % (name, i)) for i in range(int(n_))])
+    if ty.startswith("(") and ty.endswith(")"):
+        parts, depth, cur = [], 0, ""
+        for ch in ty[1:-1]:
+            if ch in "<([": depth += 1
+            if ch in ">)]": depth -= 1
+            if ch == "," and depth == 0: parts.append(cur); cur = ""
+            else: cur += ch
+        if cur: parts.append(cur)
+        return Tup([unknown_of_type(ctx, q, "%s_%d" % (name, i)) for i, q in enumerate(parts)])
+    return Havoc(ctx, name)
+
+
 def fresh_like(ctx, v, name):
     """A fresh unconstrained value of the same shape (for variables a skipped statement may have mutated)."""
     if isinstance(v, T): return ctx.fresh("havoc_" + name, v.sort, getattr(v, "mty", None))
@@ -1023,6 +1048,19 @@ class Interp:
         m = n["m"]
         recv = self.ev(env, n["recv"])
         # closures as arguments (map_or etc.) are evaluated lazily below
+        if isinstance(recv, Opt) and m in ("get_or_insert_with", "get_or_insert") and len(n["args"]) == 1:
+            # Option::get_or_insert[_with]: the value already there, else the new one - which is also written back into the place
+            if m == "get_or_insert_with":
+                cl = self.ev(env, n["args"][0])
+                sub = env.fork(And(env.pc, Not(recv.some)))
+                new = self.call_closure(sub, cl, [])
+            else:
+                new = self.ev(env, n["args"][0])
+            val = new if recv.val is None else merge(recv.some, recv.val, new)
+            root, path = self.lvalue_path(env, n["recv"])
+            if root not in env.vars: raise Unsupported("get_or_insert on an unknown place")
+            env.vars[root] = self.update(env.vars[root], path, Opt(TRUE, val))
+            return val
         if isinstance(recv, Opt) and m in ("filter", "and_then", "is_some_and"):
             cl = self.ev(env, n["args"][0])
             if recv.val is None: return Opt(FALSE, None) if m != "is_some_and" else FALSE
